@@ -123,7 +123,7 @@ def pairing(ctx):
           if fn == name and (txt is None or norm_text(st) == txt) and mentions(needle):
             ok, why = True, 'allow-listed: ' + reason
             break
-      ctx.ob('PAIR/end-total', fi, st, ok, why)
+      ctx.ob('PAIR/end-total', fi, st, ok, why, definite=(not ok and op == 'store' and _no_total_near(fi, st, totals)))
 
 
 def merge_scalars(ctx):
@@ -171,6 +171,25 @@ def _fresh_sequence(fi, total_target):
         if isinstance(c, ast.Call) and (dotted(c.func) or '').endswith('NoteSequence') and not c.args:
           return True
   return False
+
+
+def _no_total_near(fi, st, totals):
+  """Located whatever the arrangement: nothing in the loop that stores this end time, and nothing after it in the function, writes a
+  total_time or hands the sequence to a call that could - the end time is stored and total_time simply is not looked at again."""
+  loops_w = U.enclosing_loops(fi.node, st)
+  inner = loops_w[-1] if loops_w else None
+  outer = loops_w[0] if loops_w else st
+  last = max(getattr(n, 'lineno', 0) for n in ast.walk(outer))
+  for (st2, _t2, _v2, _op2) in totals:
+    if inner is not None and any(x is st2 for x in ast.walk(inner)):
+      return False
+    if getattr(st2, 'lineno', 0) > last:
+      return False
+  base = norm_text(totals[0][1].value) if totals else None
+  for c in ast.walk(fi.node):
+    if isinstance(c, ast.Call) and getattr(c, 'lineno', 0) > last and base is not None and any(norm_text(a) == base for a in c.args):
+      return False
+  return True
 
 
 def _paired(fi, st, tgt, val, op, totals):
